@@ -47,6 +47,20 @@ Definition run_405 (h t ls : list Z) : io :=
   let s := sig_of h t in
   map (fun l => match phys2raw_label s l with Some k => [1; k] | None => [0] end) ls.
 
+(* 406: header | table | flat triples/quads per str argument: text has_parse pm pe (has_parse 0 = not a number) -> phys2raw(str):
+   1 raw | 0 (raises) *)
+Fixpoint strargs_of (g : list Z) (fuel : nat) : list parg :=
+  match fuel with
+  | O => []
+  | S f => match g with
+           | t :: hp :: pm :: pe :: r => PStr t (if hp =? 0 then None else Some (mkDec pm pe)) :: strargs_of r f
+           | _ => []
+           end
+  end.
+Definition run_406 (h t g : list Z) : io :=
+  let s := sig_of h t in
+  map (fun a => match phys2raw_arg s a with Some k => [1; k] | None => [0] end) (strargs_of g (length g)).
+
 Definition run_c04 (cmd : Z) (a : io) : io :=
   match cmd, a with
   | 401, [g] => run_401 g
@@ -54,5 +68,6 @@ Definition run_c04 (cmd : Z) (a : io) : io :=
   | 403, [h; t; raws] => run_403 h t raws
   | 404, [h; t; v] => run_404 h t v
   | 405, [h; t; ls] => run_405 h t ls
+  | 406, [h; t; g] => run_406 h t g
   | _, _ => [[-999]]
   end.
